@@ -62,6 +62,14 @@ pub fn cfgs_for(level: &str, seed: u64) -> Vec<RunCfg> {
         "slicesr" => slice_cfgs(seed, false),
         "gc" => gc_cfgs(seed, false),
         "gcall" => gc_cfgs(seed, true),
+        // big single forms in slices: constant budgets around the sizes embedders use
+        "slicebig" => {
+            let mut v = vec![RunCfg::plain()];
+            for b in [1usize, 7, 64, 1000] {
+                v.push(RunCfg { name: format!("slice{}", b), sched: Sched::None, budgets: Some(vec![b]), prefix: false, live: false });
+            }
+            v
+        }
         // big live data: fewer forced collections (each one traverses more than a heap chunk)
         "gcbig" => vec![
             RunCfg::plain(),
@@ -227,6 +235,10 @@ fn one_session(kind: &str, m: &HashMap<String, String>, seed: u64, i: usize, lev
             }
             "cont" => {
                 let (forms, tags) = crate::gen_cont::session(&mut crate::rng::Rng::new(sseed));
+                (forms, tags, vec![])
+            }
+            "bigform" => {
+                let (forms, tags) = crate::gen_alloc::big_form(&mut crate::rng::Rng::new(sseed));
                 (forms, tags, vec![])
             }
             "biglive" => {
